@@ -194,6 +194,12 @@ func (p *mockProvider) run(ctx context.Context, _ core.ProviderDeps) error {
 	}
 	select {
 	case <-ctx.Done():
+		select {
+		case <-p.trigger: // it had already failed (and stopped serving ammo) when it was told to stop: it says so
+			p.pm.fault("prov")
+			return faultErr(errProv, p.plan.ev)
+		default:
+		}
 		if isFault && p.plan.gate {
 			p.pm.fault("prov")
 			return faultErr(errProv, p.plan.ev)
@@ -229,10 +235,16 @@ func (p *mockProvider) Release(core.Ammo) {}
 var errOpen = errors.New("verif: data source open failed")
 var errDecode = errors.New("verif: ammo decode failed")
 
-type failingSource struct{ delay time.Duration }
+// the data source / the decoder log the ground truth themselves (<p>.!prov) at the moment they fail: whether the
+// provider built on them reports the failure is what is being checked
+type failingSource struct {
+	delay time.Duration
+	pm    *poolMocks
+}
 
 func (f failingSource) OpenSource() (io.ReadCloser, error) {
 	time.Sleep(f.delay)
+	f.pm.fault("prov")
 	return nil, errOpen
 }
 
@@ -240,11 +252,13 @@ type countingDecoder struct {
 	n      int
 	good   int  // items decoded fine
 	failAt bool // then: an error (true) or io.EOF (false)
+	pm     *poolMocks
 }
 
 func (d *countingDecoder) Decode(core.Ammo) error {
 	if d.n >= d.good {
 		if d.failAt {
+			d.pm.fault("prov")
 			return errDecode
 		}
 		return io.EOF
@@ -406,14 +420,14 @@ func realProvider(pm *poolMocks, pl poolPlan) core.Provider {
 	var inner core.Provider
 	switch pl.fault {
 	case "dopen":
-		dconf.Source = failingSource{}
+		dconf.Source = failingSource{pm: pm}
 		inner = provider.NewDecodeProvider(newAmmo, dec(&countingDecoder{}), dconf)
 	case "dopenlate":
-		dconf.Source = failingSource{delay: 30 * time.Millisecond}
+		dconf.Source = failingSource{delay: 30 * time.Millisecond, pm: pm}
 		inner = provider.NewDecodeProvider(newAmmo, dec(&countingDecoder{}), dconf)
 	case "ddecode":
 		dconf.Source = datasource.NewString("x")
-		inner = provider.NewDecodeProvider(newAmmo, dec(&countingDecoder{good: pl.k, failAt: true}), dconf)
+		inner = provider.NewDecodeProvider(newAmmo, dec(&countingDecoder{good: pl.k, failAt: true, pm: pm}), dconf)
 	case "dok":
 		dconf.Source = datasource.NewString("x")
 		inner = provider.NewDecodeProvider(newAmmo, dec(&countingDecoder{good: pl.k}), dconf)
@@ -470,6 +484,12 @@ func (a *mockAggregator) run(ctx context.Context, _ core.AggregatorDeps) error {
 	}
 	select {
 	case <-ctx.Done():
+		select {
+		case <-a.trigger: // it had already failed when it was told to stop: it says so
+			a.pm.fault("aggr")
+			return faultErr(errAggr, a.plan.ev)
+		default:
+		}
 		if isFault && a.plan.gate {
 			a.pm.fault("aggr")
 			return faultErr(errAggr, a.plan.ev)
